@@ -671,7 +671,7 @@ def run_schema(ctx, focus, quick_graph_stride):
     add_gen_exec_validate(ctx, "schema", "names", "MC_SchemaGen", ["mc/MC_SchemaGen.tla"],
                           cfg=GEN_CFG + 'CONSTANT Family = "names"\nINVARIANT Total\n', min_cases=150, timeout=7200)
     add_gen_exec_validate(ctx, "schema", "graphs", "MC_SchemaGen", ["mc/MC_SchemaGen.tla"],
-                          cfg=GEN_CFG + 'CONSTANT Family = "graphs"\n', min_cases=3000, timeout=7200)
+                          cfg=GEN_CFG + 'CONSTANT Family = "graphs"\n', min_cases=3500, timeout=7200)
 
 
 @prop("C17")
